@@ -732,7 +732,10 @@ pub fn run(opts: Opts) -> i32 {
         "explicit-state BFS over the real TuiState::update: alphabet = kind templates x seq in {0,1,2,5,u64::MAX} \
          (ids t1/t2/k1/k2/j1/j2 so unknown-id and terminal-without-start arise; texts empty/ascii/2-byte/4-byte/3x limit); \
          capacities max_frames in {1,2,3} x max_output_bytes in {1,4,8}; a case is distinct when the complete Debug \
-         rendering of the reached TuiState differs (per capacity setting); invariants checked in every reached state",
+         rendering of the reached TuiState differs (per capacity setting); invariants checked in every reached state; \
+         second part: every sequence of <=1 frame of the full alphabet and of 2 frames of the core kinds at seq 0 (thorough: 2 of the \
+         full alphabet) x views {raw, output, metrics}, the metrics view under 3 timestamp patterns (increasing, decreasing, extremes), played as \
+         the session stream to the real `rip run --server` binary, each case twice",
     );
     report.assume("state key = Debug rendering of TuiState (derive(Debug) covers every field incl. private bounds); update reads nothing else");
     report.assume("memory bound judged on the configured bounds only: frames, output_text, previews (8192); maps keyed by id are not bounded by configuration");
@@ -758,6 +761,13 @@ pub fn run(opts: Opts) -> i32 {
     // outside its buffer with ANY state) are not judged; see DESIGN.md section 4.3
     let sizes_thorough: [(u16, u16); 3] = [(20, 8), (80, 24), (200, 60)];
     let tier = report.tier();
+    // second part (run first: it is bounded in time, the BFS uses what is left of the wall cap): the headless renderers of rip-cli, through the real binary
+    {
+        let to_json = |a: &Alphabet| -> Vec<Value> { a.frames.iter().map(|e| serde_json::to_value(e).unwrap_or(Value::Null)).collect() };
+        // pairs: one frame per kind template in quick (seq 0), the reduced core alphabet in thorough
+        let pair_alpha = alphabet(true, &[0]);
+        crate::c20cli::run(&report, &to_json(&pair_alpha), &to_json(&full), &pair_alpha.names, &full.names, tier);
+    }
     for &mf in &caps_frames {
         for &mo in &caps_out {
             match tier {
